@@ -11,6 +11,7 @@ payload(i); failures are urllib3 errors.
 """
 from __future__ import annotations
 
+import gc
 import itertools
 
 from urllib3 import HTTPConnectionPool, Retry
@@ -36,12 +37,16 @@ def evil(i):
 GET_BEHAVIOURS = ["cl", "chunked", "close-delimited", "cl-conn-close", "204", "304", "100-then-200",
                   "204+stray-same-seg", "204+stray-later-seg", "eof-in-headers", "eof-in-body",
                   "cl-then-silent-close", "cl-then-unsolicited", "chunked-then-unsolicited", "304+stray-same-seg",
-                  "stall-in-body-rest-late", "stall-before-status-reply-late"]
+                  "stall-in-body-rest-late", "stall-before-status-reply-late", "cl-2-now-rest-late", "chunked-1-now-rest-late"]
 POST_BEHAVIOURS = ["cl", "eof-in-headers", "cl-then-unsolicited", "cl-then-silent-close", "204+stray-same-seg",
                    "stall-before-status-reply-late"]
 HEAD_BEHAVIOURS = ["head-cl", "head-cl+body-sent", "head-cl-conn-close", "head-chunked"]
 SEGMENTATIONS = ["whole", "split-after-head", "bytes"]
-CALLERS = ["preload", "read", "read2-release", "release", "drain", "close", "stream3", "abandon", "read2-abandon"]
+CALLERS = ["preload", "read", "read2-release", "release", "drain", "close", "stream3", "abandon", "read2-abandon",
+           # "released early" and then disposed of: close() / dropping the last reference (IOBase.__del__ -> close())
+           # after release_conn() closes the http.client response, whose "previous response not read" state was the
+           # only thing standing between the pooled connection and the next request
+           "read2-release-close", "release-close", "read2-release-drop"]
 LAST_CALLERS = ["preload", "read", "stream3"]
 
 
@@ -86,6 +91,19 @@ def reply(behaviour, i):
         full = response(200, p + evil(i))
         k = len(full) - len(evil(i))
         return full[:k], [STALL, ("LATE", full[k:])]
+    if behaviour == "cl-2-now-rest-late":
+        # head + the first 2 body bytes arrive; the rest of the body is in flight and lands only when the
+        # socket is next used. Body content is arbitrary bytes: here the rest looks like a complete response.
+        full = response(200, p[:2] + evil(i))
+        k = len(full) - len(evil(i))
+        return full[:k], [("LATE", full[k:])]
+    if behaviour == "chunked-1-now-rest-late":
+        # first chunk (2 bytes) arrives; the remaining chunks are in flight; chunk DATA is arbitrary bytes and the
+        # second chunk's data happens to look like a response (its size line precedes it, so a client that
+        # re-used the connection would read garbage first: must still never be delivered)
+        e = evil(i)
+        head = b"HTTP/1.1 200 OK\r\nTransfer-Encoding: chunked\r\n\r\n2\r\n" + p[:2] + b"\r\n"
+        return head, [("LATE", b"%x\r\n" % len(e) + e + b"\r\n0\r\n\r\n")]
     if behaviour == "stall-before-status-reply-late":
         return b"", [STALL, ("LATE", response(200, p))]
     if behaviour == "head-cl":
@@ -199,6 +217,18 @@ def execute(cfg, steps, acc=None, trace=None):
                 guard(i, "release", r.release_conn)
             elif caller == "release":
                 guard(i, "release", r.release_conn)
+            elif caller == "release-close":
+                guard(i, "release", r.release_conn)
+                guard(i, "close", r.close)
+            elif caller in ("read2-release-close", "read2-release-drop"):
+                deliver(i, guard(i, "read2", lambda: r.read(2)))
+                guard(i, "release", r.release_conn)
+                if caller.endswith("close"):
+                    guard(i, "close", r.close)
+                else:
+                    every.pop()
+                    del r
+                    gc.collect()
             elif caller == "drain":
                 guard(i, "drain", r.drain_conn)
             elif caller == "close":
@@ -227,6 +257,8 @@ def execute(cfg, steps, acc=None, trace=None):
         want = b"" if method == "HEAD" else payload(i)
         if steps[i][1] == "stall-in-body-rest-late":
             want = payload(i) + evil(i)
+        if steps[i][1] in ("cl-2-now-rest-late", "chunked-1-now-rest-late"):
+            want = payload(i)[:2] + evil(i)
         if not want.startswith(bytes(data)):
             viols.append(("foreign-bytes", {"behaviour": steps[i][1], "caller": steps[i][3], "method": method,
                                             "prev": steps[i - 1][1] if i else None, "prev_caller": steps[i - 1][3] if i else None},
